@@ -28,6 +28,11 @@ StopAtViolation == ~Violated
 EmitG == Violated => Out("viol")
 Terminal == ~ENABLED NextG
 EmitTerm == (Terminal /\ ~Violated) => Out("term")
+\* client sessions of ONE daemon: world "live", ND = 1, NS = 3..4 clients; hist is part of the state (no VIEW), so
+\* EVERY order of connects and disconnects during the daemon's life is a behaviour of its own; a shell that finds
+\* the socket missing (it came after the exit) leaves the scope
+SessionOK == \A s \in Shells : spc[s] \notin {"spawning", "outofids", "refused", "failed"}
+EmitSess == (Terminal /\ SessionOK /\ ~Violated) => Out("sess")
 Deep == ~ConnectedIsLive
 StopAtDeep == ~Deep
 EmitDeep == Deep => Out("deep")
